@@ -9,6 +9,7 @@ Extraction "modelc14.ml"
   mk_operand root_block root_stride m_rotated m_block maddr vaddr
   filling_char flip ftri vtri
   potrf_dom potrf_asrt potrf_colbranch potrf_call_of potrf_ret potrf_legal potrf_order
+  potrf_it_asrt potrf_it_call potrf_it_ret m_begin m_end it_plus it_distance
   geqrf_dom geqrf_asrt geqrf_mk geqrf_trace geqrf_ret geqrf_legal
   gesvd_dom gesvd_asrt gesvd_mk gesvd_trace gesvd_legal gesvd_minwork gesvd_value_operands
   syev_dom syev_asrt syev_step_of syev_ret syev_legal syev_work_size syev_rowbranch.
